@@ -281,6 +281,20 @@ Theorem C17_gen_check_image_dimension_eq : forall a b,
   Gen.CheckFns.check_image_dimension a b = check_image_dimension (finfo_of a) (finfo_of b).
 Proof. exact gen_check_image_dimension_eq. Qed.
 
+(* the "custom checking" of check_input_section (the statements between checker.validate(cfg) and
+   return cfg, regenerated: which check is called on which values of the completed configuration, in
+   which order) = the tail of the hand-written model of check_input_section *)
+Theorem C17_gen_check_input_section_custom_eq : forall fs cfg,
+  Gen.CheckFns.check_input_section_custom fs cfg = model_custom (abs_fs fs) images_checked cfg.
+Proof. exact gen_check_input_section_custom_eq. Qed.
+
+(* ... and the hand-written model of check_input_section after update_conf is its validation part
+   followed by that tail *)
+Theorem C17_check_completed_is_validation_then_custom : forall fs cfg,
+  pandora_check_completed fs cfg =
+  check_completed_with (orc fs) gen_schemas (model_custom fs images_checked) cfg.
+Proof. intros fs cfg. exact (check_completed_is_with fs gen_schemas images_checked cfg). Qed.
+
 (* ACCEPTED IFF WELL-FORMED, on the regenerated check_datasets *)
 Theorem C17_gen_check_datasets_iff_wellformed : forall l r,
   py_dataset l -> py_dataset r -> labels_distinct l -> labels_distinct r ->
@@ -292,10 +306,11 @@ Theorem C17_gen_interval_length_checked : forall fs xs img,
   List.length xs <> 2%nat -> is_ok (Gen.CheckFns.check_disparities_from_input fs (JList xs) img) = false.
 Proof. exact gen_interval_length_checked. Qed.
 
-(* ACCEPTED IFF DOCUMENTED, with the three custom checks of check_input_section regenerated
-   ([gen_check_completed]: the skeleton of Model/InputCheck.v check_completed -- equal to it by
-   reflexivity, [check_completed_is_with] -- around Gen.CheckFns.check_disparities_from_input (left,
-   right) and Gen.CheckFns.check_images), for every configuration value and every file system of
+(* ACCEPTED IFF DOCUMENTED, with the custom checking of check_input_section regenerated
+   ([gen_check_completed]: the validation part of Model/InputCheck.v check_completed -- schema selection
+   and json-checker validation against the regenerated schemas -- followed by
+   Gen.CheckFns.check_input_section_custom, i.e. the regenerated check_disparities_from_input left and
+   right and the regenerated check_images), for every configuration value and every file system of
    rasters; "min <= max" of a documented grid is read on the samples ([C17_grid_order_on_samples]) *)
 Theorem C17_gen_check_completed_iff_documented : forall fs cfg,
   interval_bool_free cfg = true ->
@@ -408,6 +423,8 @@ Print Assumptions C17_gen_dataset_helpers_eq.
 Print Assumptions C17_gen_check_disparities_from_input_eq.
 Print Assumptions C17_gen_check_images_eq.
 Print Assumptions C17_gen_check_image_dimension_eq.
+Print Assumptions C17_gen_check_input_section_custom_eq.
+Print Assumptions C17_check_completed_is_validation_then_custom.
 Print Assumptions C17_gen_check_datasets_iff_wellformed.
 Print Assumptions C17_gen_interval_length_checked.
 Print Assumptions C17_gen_check_completed_iff_documented.
